@@ -6,6 +6,7 @@
 #include "../seams/filesim.h"
 #include "../seams/schedrt.h"
 
+#include <fcntl.h>
 #include <memory>
 #include <sys/wait.h>
 #include <unistd.h>
@@ -117,6 +118,10 @@ static std::vector<std::string> sched_gen(const GenArgs &ga) {
   std::string fsmode = fsmodes[sw.below(9)];
   pl.push_back(strf("cfg tasks=%d strategy=%s p=%d pct_d=%d schedseed=%llu slots=%d fs=%s", ntasks, st.c_str(), pden[sw.below(6)],
                     1 + (int)sw.below(3), (unsigned long long)(stream(ga.seed, ST_SCHED).next() >> 8), nslots, fsmode.c_str()));
+  // a sixth of the runs have the library's own diagnostics on (ORC_DEBUG=2..4); a third build some programs from
+  // static bytecode, the way generated code does
+  if (sw.chance(1, 6)) pl.back() += strf(" debug=%d", 2 + (int)sw.below(3));
+  int bc_den = sw.chance(1, 3) ? 2 : 0;
   int ops_per_task = 2 + (int)sw.below(thorough ? 7 : 5);
   // workload mix is itself a swarm choice
   int w_wrapper = 2 + (int)sw.below(6), w_private = (int)sw.below(5), w_publish = (int)sw.below(4), w_use = (int)sw.below(5),
@@ -142,8 +147,10 @@ static std::vector<std::string> sched_gen(const GenArgs &ga) {
                                            : pr.chance(1, 2) ? strf("gen:%llu:%d:8:1", (unsigned long long)(pr.next() >> 40) % 5, len)
                                                              : strf("gen:%llu:%d:8:17", (unsigned long long)(pr.next() >> 16), len);
         l += strf("private spec=%s n=%d ds=%llu", spec.c_str(), 1 + (int)pr.below(40), (unsigned long long)(dr.next() >> 20));
+        if (bc_den && pr.chance(1, bc_den)) l += " via=bc";
       } else if ((x -= w_publish) < 0) {
         l += strf("publish slot=%d spec=gen:%llu:%d:8:1", (int)pr.below(nslots), (unsigned long long)(pr.next() >> 16), 1 + (int)pr.below(6));
+        if (bc_den && pr.chance(1, bc_den)) l += " via=bc";
       } else if ((x -= w_use) < 0) {
         l += strf("use slot=%d mode=%s n=%d ds=%llu", (int)pr.below(nslots), pr.chance(1, 3) ? "emulate" : "exec", 1 + (int)pr.below(40),
                   (unsigned long long)(dr.next() >> 20));
@@ -152,6 +159,7 @@ static std::vector<std::string> sched_gen(const GenArgs &ga) {
       } else if ((x -= w_churn) < 0) {
         l += strf("churn spec=gen:%llu:%d:8:1 n=%d ds=%llu", (unsigned long long)(pr.next() >> 16), 1 + (int)pr.below(20), 1 + (int)pr.below(40),
                   (unsigned long long)(dr.next() >> 20));
+        if (bc_den && pr.chance(1, bc_den)) l += " via=bc";
       } else if ((x -= w_window) < 0) {
         l += strf("oswindow state=%s", pr.chance(1, 2) ? "deny" : "allow");
       } else if ((x -= w_hoard) < 0) {
@@ -295,11 +303,25 @@ static void note_code_hash(int tid, const std::string &spec, OrcProgram *p) {
     fail("determinism", "concurrent-compile-differs", strf("task %d: the same program (%s) compiled concurrently by two tasks yields different machine code", tid, spec.c_str()));
 }
 
+// A task's own program, built either through the builder API or (via=bc) from static bytecode, the way
+// orcc-generated code builds its programs: serialise, then orc_program_new_from_static_bytecode().
+static OrcProgram *build_for_task(const std::vector<std::string> &w, const std::string &spec, const std::string &name, ProgMeta *meta) {
+  OrcProgram *p = build_program(spec, name, meta);
+  if (kv(w, "via", "api") != "bc") return p;
+  OrcBytecode *bc = orc_bytecode_from_program(p);
+  OrcProgram *q = orc_program_new_from_static_bytecode(bc->bytecode);
+  orc_bytecode_free(bc);
+  orc_program_free(p);
+  orc_program_set_name(q, name.c_str());
+  g_ctx->c->count("sched.programs_from_static_bytecode");
+  return q;
+}
+
 static void op_private(int tid, const std::vector<std::string> &w, int opi) {
   std::string spec = kv(w, "spec");
   std::string name = strf("t%dp%d", tid, opi);
   ProgMeta meta;
-  OrcProgram *p = build_program(spec, name, &meta);
+  OrcProgram *p = build_for_task(w, spec, name, &meta);
   OrcProgram *twin = make_twin(spec, name);
   int res = orc_program_compile(p);
   if (!ORC_COMPILE_RESULT_IS_FATAL(res)) {
@@ -314,7 +336,7 @@ static void op_churn(int tid, const std::vector<std::string> &w, int opi) {
   std::string spec = kv(w, "spec");
   std::string name = strf("t%dc%d", tid, opi);
   ProgMeta meta;
-  OrcProgram *p = build_program(spec, name, &meta);
+  OrcProgram *p = build_for_task(w, spec, name, &meta);
   OrcProgram *twin = make_twin(spec, name);
   int res = orc_program_compile(p);
   if (!ORC_COMPILE_RESULT_IS_FATAL(res)) {
@@ -335,7 +357,7 @@ static void op_publish(int tid, const std::vector<std::string> &w, int opi) {
   std::string spec = kv(w, "spec");
   std::string name = strf("t%ds%d", tid, opi);
   auto meta = std::make_shared<ProgMeta>();
-  OrcProgram *p = build_program(spec, name, meta.get());
+  OrcProgram *p = build_for_task(w, spec, name, meta.get());
   OrcProgram *twin = make_twin(spec, name);
   int res = orc_program_compile(p);
   OrcCode *code = ORC_COMPILE_RESULT_IS_FATAL(res) ? nullptr : orc_program_take_code(p);
@@ -530,7 +552,15 @@ static void sched_run(const std::vector<std::string> &plan, Child &c) {
     fs::set_dir("/sim/xdg", fs::P_NOEXEC); fs::set_dir("/sim/home", fs::P_FULL); fs::set_dir("/tmp", fs::P_NOEXEC);
   } else if (fsmode == "all-denied") { fs::set_dir("/tmp", fs::P_NOEXEC); fs::set_execmem(false); }
   // the debug sink must be in place before any task runs (setting it is not part of the race)
-  install_debug_sink();
+  int dbg = (int)kvi(cfg_w, "debug", 0);
+  if (dbg > 0) {
+    // a member with the library's own message printing switched on (as ORC_DEBUG=<level> does for a real
+    // application): the default print function stays in place and writes to a discarded stderr
+    setenv("ORC_DEBUG", strf("%d", dbg).c_str(), 1);
+    int nul = open("/dev/null", O_WRONLY);
+    if (nul >= 0) { dup2(nul, 2); close(nul); }
+    c.count("sched.library_debug_output_on");
+  } else install_debug_sink();
   std::string shape_ref = pristine_registry_shape();
 
   rt::init(ntasks, rc);
